@@ -164,6 +164,11 @@ class FuzzSym(NativeSym):
         env = env or {}
         n = self.rng.choice([0, 0, 1, 1, 2, 2, 3, 4, 5])
         items = self._candidate(kind, n)
+        if items and kind in ("tuple2", "tuple3", "Point") and self.rng.random() < 0.15:
+            # an exact duplicate of an entry next to it (two points with the same time and mark are legal; lists whose
+            # facts forbid it are rejected below)
+            k = self.rng.randrange(len(items))
+            items = items[:k + 1] + [items[k]] + items[k + 1:]
         for i, e in enumerate(items):
             if all and not self.holds(all, dict(env, e=e, i=i)):
                 raise Reject(all)
